@@ -1139,13 +1139,40 @@ def forward_names(ctx, rule="R-FORWARD-NAMES", classes=None):
                 b = bind_args(sc.sym, impl)
                 n += 1
                 bad = [(k, v[1]) for k, v in b.items() if v[0] == "p" and v[1] in impl.params and v[1] != k]
-                missing = [p for p in shared if b.get(p) is None and p not in impl.defaults]
+                used = {x[1] for v in b.values() for x in walk(v) if x[0] == "p"}
+                dropped = [p for p in shared if b.get(p) is None and p not in used]
                 inst = "%s.%s forwards its parameters to %s.%s by name" % (fn.cls.name, fn.name, impl.cls.name if impl.cls else "?", impl.name)
                 if bad:
                     ctx.violated(rule, fn, inst, "parameter %s is passed as the callee's `%s`%s" % (
                         bad[0][1], bad[0][0], " (and %s as `%s`)" % (bad[1][1], bad[1][0]) if len(bad) > 1 else ""), sc.node)
+                elif dropped:
+                    ctx.violated(rule, fn, inst, "parameter `%s` is accepted but not passed on: the callee silently uses its own default whatever the "
+                                 "caller asked for" % dropped[0], sc.node)
                 else:
                     ctx.holds(rule, inst)
+        # constructors that hand their own parameters to a component's constructor
+        if fn.name == "__init__":
+            for sc in ctx.cg.sites.get(fn.qual, []):
+                if sc.sym[1][0] != "clsref":
+                    continue
+                for impl in sc.targets:
+                    if impl.name != "__init__" or impl.cls is None:
+                        continue
+                    shared = [p for p in fn.params if p in impl.params]
+                    if len(shared) < 2:
+                        continue
+                    try:
+                        b = bind_args(sc.sym, impl)
+                    except AnalysisError:
+                        continue
+                    n += 1
+                    bad = [(k, v[1]) for k, v in b.items() if v[0] == "p" and v[1] in impl.params and v[1] != k]
+                    inst = "%s.__init__ hands its parameters to %s(...) by name" % (fn.cls.name, impl.cls.name)
+                    if bad:
+                        ctx.violated(rule, fn, inst, "parameter %s is passed as the component's `%s`%s" % (
+                            bad[0][1], bad[0][0], " (and %s as `%s`)" % (bad[1][1], bad[1][0]) if len(bad) > 1 else ""), sc.node)
+                    else:
+                        ctx.holds(rule, inst)
     return n
 
 
@@ -1310,3 +1337,96 @@ def seed_bind(ctx, rule="R-SEED-BIND"):
                                  "for a seed nobody received is accepted", e.node)
     if n == 0:
         ctx.unknown(rule, "no store to DM14Server.seed found")
+
+
+def listen_first(ctx, rule="R-LISTEN-FIRST"):
+    """client and server register the handler of an expected reply BEFORE the frame that provokes the reply goes out: on no path is a
+    subscribe call preceded by a send and followed by none (the reply may arrive before the sending call returns)"""
+    P = ctx.prog
+    SENDS = {"_send_dm14", "_send_dm15", "_send_dm16", "_send_operation_complete", "send_pgn"}
+    n = 0
+    for cls in (Q, S):
+        for fn in sorted(P.cls(cls).methods.values(), key=lambda f: f.node.lineno):
+            try:
+                rs = runs(ctx, fn)
+            except AnalysisError:
+                continue
+            bad = None
+            has = False
+            for r in rs:
+                if r.term in ("raise", "exc"):
+                    continue
+                sends = [i for i, e in r.effects() if e.kind == "call" and mname(e.value) in SENDS]
+                subs = [(i, e) for i, e in r.effects() if e.kind == "call" and e.value[1] == ("attr", field("_ca"), "subscribe")]
+                if not subs or not sends:
+                    continue
+                has = True
+                for i, e in subs:
+                    if any(j < i for j in sends) and not any(j > i for j in sends) and bad is None:
+                        bad = e
+            if not has:
+                continue
+            n += 1
+            inst = "%s.%s registers reply handlers before the frame that provokes the reply is sent" % (cls, fn.name)
+            if bad is not None:
+                ctx.violated(rule, fn, inst, "%s is subscribed only after the last frame of this step has been sent: a reply that arrives before the sending "
+                             "call returns (fast peer, blocking driver) finds no handler and is lost - the transaction never completes" % pretty(bad.value[2][0])[:40], bad.node)
+            else:
+                ctx.holds(rule, inst)
+    if n == 0:
+        ctx.unknown(rule, "no function that both sends and subscribes found")
+
+
+def txn_fresh(ctx, rule="R-TXN-FRESH"):
+    """the value <-> byte conversion of a transaction uses only fields that this transaction has set: every object field the converter
+    reads and that any method other than the constructor writes is stored by the calling operation before the conversion is called
+    (a field left over from the previous read / write must not shape the next one)"""
+    P = ctx.prog
+    c = P.cls(Q)
+    # fields written outside the constructor
+    mutable = set()
+    for fn in c.methods.values():
+        if fn.name == "__init__":
+            continue
+        for n in ast.walk(fn.node):
+            if isinstance(n, ast.Attribute) and isinstance(n.value, ast.Name) and n.value.id == "self" and isinstance(n.ctx, ast.Store):
+                mutable.add(n.attr)
+    methods = set(c.methods)
+    n_inst = 0
+    for conv in ("_values_to_bytes", "_bytes_to_values"):
+        if conv not in c.methods:
+            continue
+        cf = c.methods[conv]
+        reads = {n.attr for n in ast.walk(cf.node) if isinstance(n, ast.Attribute) and isinstance(n.value, ast.Name) and n.value.id == "self"
+                 and isinstance(n.ctx, ast.Load) and n.attr not in methods}
+        need = reads & mutable
+        for caller in sorted(c.methods.values(), key=lambda f: f.node.lineno):
+            if caller is cf:
+                continue
+            bad = None
+            found = False
+            try:
+                rs = runs(ctx, caller)
+            except AnalysisError:
+                continue
+            for r in rs:
+                calls = [i for i, e in r.effects() if e.kind == "call" and is_self_call(e.value, conv)]
+                if not calls:
+                    continue
+                found = True
+                i = calls[0]
+                stored = {e.target[2] for j, e in r.effects() if j < i and e.kind in ("store", "aug") and e.target[0] == "attr" and e.target[1] == SELF}
+                miss = sorted(need - stored)
+                if miss and bad is None:
+                    bad = (miss, [e for j, e in r.effects() if j == i][0].node)
+            if not found:
+                continue
+            n_inst += 1
+            inst = "%s.%s sets every transaction field %s reads (%s) before converting" % (Q, caller.name, conv, ", ".join(sorted(need)) or "none")
+            if bad:
+                ctx.violated(rule, caller, inst, "%s reads self.%s, which this operation does not set: it still holds whatever the previous transaction "
+                             "(of the other kind) left there" % (conv, bad[0][0]), bad[1])
+            else:
+                ctx.holds(rule, inst)
+    if n_inst == 0:
+        ctx.unknown(rule, "no caller of the converters found in %s" % Q)
